@@ -16,6 +16,8 @@ Report == LET r == Recs[i]
               rs == [err |-> r.err, nodes |-> {<<n[1], n[2], n[3], n[4], n[5]>> : n \in Rng(r.nodes)},
                      edges |-> {<<e[1], e[2]>> : e \in Rng(r.edges)}]
           IN /\ Bump(1) /\ (~WellFormed(tb, r.drop) => Bump(2))
-             /\ (ImportOK(tb, r.kind, r.drop, rs) \/ PrintT(<<"FAIL", "C12", i>>))
+             /\ ((ImportOK(tb, r.kind, r.drop, rs)
+                  /\ ((r.tidcol = 1 /\ r.err = "ok") => {<<n[1], n[2]>> : n \in Rng(r.tids)} = ExpTids(tb, r.kind)))
+                 \/ PrintT(<<"FAIL", "C12", i>>))
 Post == PrintT(<<"COUNTS", <<TLCGet(1), TLCGet(2)>>>>)
 =============================================================================
